@@ -34,6 +34,7 @@ def run(ctx):
     wake_rule(ctx, facts)
     C19.err_adapters(ctx, facts)
     align(ctx, facts)
+    rendezvous_waker(ctx, facts)
     ctx.assume("transport implementations deliver streams to the route they are given; schedule-dependent behaviour (C14) is not decided here")
 
 
@@ -232,7 +233,11 @@ def ieval(e, env):
         op = e[1].replace("WithOverflow", "")
         if op in ("Div", "Rem") and b == 0:
             raise NoEval("division by zero")
-        return {"Add": a + b, "Sub": a - b, "Mul": a * b, "Div": a // b if b else 0, "Rem": a % b if b else 0, "Shl": a << b, "Shr": a >> b}.get(op) if op in ("Add", "Sub", "Mul", "Div", "Rem", "Shl", "Shr") else (_ for _ in ()).throw(NoEval(op))
+        tbl = {"Add": a + b, "Sub": a - b, "Mul": a * b, "Div": a // b if b else 0, "Rem": a % b if b else 0, "Shl": a << b if 0 <= b < 256 else 0,
+               "Shr": a >> b if 0 <= b < 256 else 0, "BitAnd": a & b, "BitOr": a | b, "BitXor": a ^ b}
+        if op not in tbl:
+            raise NoEval(op)
+        return tbl[op]
     raise NoEval(str(e)[:60])
 
 
@@ -307,3 +312,25 @@ def align(ctx, facts):
             asserts["capacity%read_size==0"] = True
     for k_, v in asserts.items():
         ctx.ob("ALIGN", f"new_with:assert:{k_}", v, "violations panic at channel creation instead of stalling later" if v else f"the runtime assertion `{k_}` is gone: a misconfigured channel would stall silently", site_of(b))
+
+
+def rendezvous_waker(ctx, facts):
+    """StreamCollection::add_waker(key, waker) returns None (= 'no stream yet, you will be woken') only after it has
+    stored exactly that waker for the key: a kept older waker wakes a context that no longer polls."""
+    ctx.rule("WAKE-latest: in StreamCollection::add_waker every `None` return is preceded on its path by a write of the given waker into the entry (clone_from on the stored waker, or insert(Waiting(waker.clone())))")
+    b = facts.bodies.get("helpers::transport::stream::collection::StreamCollection::<I, S>::add_waker")
+    if b is None:
+        ctx.missing("WAKE-latest", "StreamCollection::add_waker")
+        return
+    ctx.count(bodies=1)
+    writes = set()
+    for bb, t in b.calls():
+        fn = F.callee(t)[0] or ""
+        args = [str(flow.expr_of(b, x, max_depth=25)) for x in t["args"]]
+        if any("('arg', 3)" in x for x in args[1:]) and re.search(r"(Clone::clone_from|VacantEntry::<'a, K, V(, S)?>::insert|VacantEntry.*::insert|Entry::<'a, K, V(, S)?>::or_insert|Option::<T>::(replace|insert))$", fn):
+            writes.add(bb)
+    nones = [bb for bb, idx, st in b.iter_assigns() if st["p"] == [0] and st["r"]["k"] == "agg" and st["r"].get("adt") == "std::option::Option" and st["r"].get("vn") == "None"]
+    reach = b.reachable(0, avoid=frozenset(writes))
+    stale = [n for n in nones if n in reach]
+    ok = len(writes) >= 2 and bool(nones) and not stale
+    ctx.ob("WAKE-latest", "add_waker:none-only-after-storing-the-waker", ok, "a receiver told to wait has its current waker registered" if ok else "StreamCollection::add_waker can answer `None` (wait) without having stored the caller's current waker: when the stream arrives the stale / missing waker is woken and the receive stalls", site_of(b, stale[0]) if stale else site_of(b))
